@@ -496,6 +496,12 @@ def runOp (op : String) (args : List String) : String :=
   | "spec.zone", args => zoneOp true args
   | "codec.pack", typ :: vals => codecPack typ vals
   | "codec.unpack", [typ, rd] => codecUnpack typ rd
+  | "msg.repack", [m] =>
+    match unhex m with
+    | some msg => (match MU.unpackMsg msg with
+      | some r => if r.err then "err" else (match MU.packMsgPlain r with | some w => hex w | none => "E")
+      | none => "hdr-err")
+    | none => "bad-op"
   | "msg.unpack", [m] =>
     match unhex m with
     | some msg => (match MU.unpackMsg msg with | some r => showMsgM r | none => "hdr-err")
